@@ -87,7 +87,7 @@ def generate(st):
         funcs.append(s)
     decs = ['try', 'back', 'kws', 'cache', 'loop', 'pd2np']
     if retry:
-        decs = ['try', 'kws']
+        decs = ['try', 'kws', 'cache']      # a cached function whose first evaluation of a key fails and a later one succeeds
     else:
         decs = sorted(sw.sample(decs, sw.randint(2, len(decs))))
     cfg = {'funcs': funcs, 'mode': 'retry' if retry else 'normal', 'faulty': faulty, 'decs': decs,
@@ -488,8 +488,17 @@ def execute(trace, ctx=None):
                     raise Violation('retry-result', 'an attempt succeeded but the call returned %r' % (r,), k)
                 if n_bad:
                     res.probe('retry-then-success')
+                if 'cache' in types:
+                    by_base.setdefault((fid, _key(*seen[types.index('cache')])), []).append(r)
             else:
                 if not evals:
+                    # under a cache a call may be served from the memo: then it must be the very object a successful
+                    # evaluation with an equal key produced earlier
+                    if 'cache' in types and status == 'ok':
+                        rk = _key(*seen[types.index('cache')])
+                        if any(r is x for x in by_base.get((fid, rk), [])):
+                            res.probe('cache-hit')
+                            return 'ok'
                     raise Violation('not-evaluated', 'the call returned %r without evaluating f' % (r,), k)
                 if has_try:
                     fb = _fallback_of(o)
@@ -500,6 +509,9 @@ def execute(trace, ctx=None):
                     raise Violation('exception-swallowed', 'f raised and no try_* wrapper is present, yet the call returned %r' % (r,), k)
             if sleeps > n_bad:
                 raise Violation('sleep-count', '%d sleeps for %d failed attempts' % (sleeps, n_bad), k)
+            if 'cache' in types and status == 'ok':
+                # whatever a cached stack returned (a value, or a fallback produced BELOW the cache) may be served again
+                by_base.setdefault((fid, _key(*seen[types.index('cache')])), []).append(r)
             return 'ok'
         # ---------------- normal configuration ----------------
         # expected outcome: f's own outcome passed outwards through the stack
